@@ -1,5 +1,7 @@
 """Determines if a channel is trace-preserving."""
 
+import itertools
+
 import numpy as np
 
 from toqito.channels import partial_trace
@@ -92,6 +94,11 @@ def is_trace_preserving(
     # If the variable `phi` is provided as a list, we assume this is a list
     # of Kraus operators.
     if isinstance(phi, list):
+        # Completely positive maps may be given as [K1, K2, ...], [[K1], [K2], ...] or [[K1, K2, ..., Kr]] with r > 2.
+        if isinstance(phi[0], np.ndarray):
+            phi = [[k_op, k_op] for k_op in phi]
+        elif len(phi[0]) == 1 or (len(phi) == 1 and len(phi[0]) > 2):
+            phi = [[k_op, k_op] for k_op in itertools.chain(*phi)]
         phi_l = [A for A, _ in phi]
         phi_r = [B for _, B in phi]
 
